@@ -1,6 +1,8 @@
 import Driver.Util
 import GFS.Base.Md5
 import GFS.Model.Front
+import GFS.Model.Uploader
+import GFS.Spec.Multipart
 import GFS.Spec.S3
 import GFS.Spec.Listing
 import GFS.Spec.Versions
@@ -18,6 +20,8 @@ structure DState where
   backend : String := "mem"
   vmode : Bool := false                       -- spec column from Spec.Versions
   vspec : SMap Spec.Versions.VBucket := []
+  upl   : Upl := Upl.empty
+  mspec : List Spec.Multipart.Upload := []
 
 def optNat (o : Option Nat) : String := match o with | some n => toString n | none => "-"
 
@@ -210,7 +214,7 @@ def vspecStep (st : DState) (toks : List String) (o : Out) (nextVerBefore : Nat)
 def stepState0 (st : DState) (toks : List String) : Option (DState × Out × String × String) :=
   let md5 := Md5.md5
   match toks with
-  | ["reset"] => some ({ st with mem := Mem.empty, spec := [], vspec := [] }, Out.ok, "ok", "-")
+  | ["reset"] => some ({ st with mem := Mem.empty, spec := [], vspec := [], upl := Upl.empty, mspec := [] }, Out.ok, "ok", "-")
   | ["cfg", backend, auto, failpage, novers] =>
     let versioned := backend == "mem" && novers != "1"
     let pag := backend == "mem"
@@ -301,6 +305,102 @@ def stepState0 (st : DState) (toks : List String) : Option (DState × Out × Str
     let (m, o) := Front.listVersions st.cfg st.mem (fromHex b) (parsePrefix hasP pfx hasD d) (fromHex km) (parseOptNat vm)
       (parseInt maxKeys)
     some ({ st with mem := m }, o, showOut o, "-")
+  | ["mpinit", b, k, md] =>
+    (match Front.ensureBucket st.cfg st.mem (fromHex b) with
+     | (m, .ok _) =>
+       let (u, id) := st.upl.create (fromHex b) (fromHex k) (parseMeta md)
+       some ({ st with mem := m, upl := u, mspec := st.mspec ++ [⟨id, fromHex b, fromHex k, []⟩] }, Out.ok, s!"upload {id}", "-")
+     | (m, .err c) => some ({ st with mem := m }, Out.err c, s!"err {c.name}", "-")
+     | (m, .panic _) => some ({ st with mem := m }, Out.ok, "panic", "-"))
+  | ["mppart", b, k, id, n, declared, body] =>
+    let nI := parseInt n
+    let bodyB := fromHex body
+    if nI ≤ 0 || nI > 10000 then some (st, Out.err .InvalidPart, "err InvalidPart", "-")
+    else if parseInt declared ≤ 0 then some (st, Out.err .MissingContentLength, "err MissingContentLength", "-")
+    else
+      let (u, r) := st.upl.uploadPart md5 (fromHex b) (fromHex k) (parseNat id) nI.toNat (parseInt declared) bodyB
+      (match r with
+       | .ok h =>
+         let ms := st.mspec.map fun s => if s.id == parseNat id then Spec.Multipart.setLatest s nI.toNat bodyB else s
+         some ({ st with upl := u, mspec := ms }, Out.ok, s!"part {toHex (Bytes.hexLower h)}", "-")
+       | .err c => some ({ st with upl := u }, Out.err c, s!"err {c.name}", "-")
+       | .panic _ => some ({ st with upl := u }, Out.ok, "panic", "-"))
+  | ["mpcomplete", b, k, id, listed] =>
+    let ls : List (Int × Bytes) := if listed == "~" then [] else
+      (listed.splitOn ",").map fun e => match e.splitOn ":" with
+        | [n, t] => (parseInt n, fromHex t)
+        | _ => (0, [])
+    let (u, m, r) := st.upl.complete md5 st.mem (fromHex b) (fromHex k) (parseNat id) ls
+    -- specification: accepted iff ascending, all parts uploaded, ETags of the most recent uploads
+    let su := st.mspec.find? (fun s => s.id == parseNat id && s.bucket == fromHex b && s.key == fromHex k)
+    let verdict := match su with
+      | none => none
+      | some s => Spec.Multipart.accepted md5 s ls
+    let bucketThere := (SMap.find st.spec (fromHex b)).isSome
+    let (spec', mspec', sp) := match su, verdict with
+      | none, _ => (st.spec, st.mspec, "err NoSuchUpload")
+      | some _, none => (st.spec, st.mspec, "rejected")
+      | some s, some bodies =>
+        if bucketThere then
+          ((Spec.S3.step st.spec (.put (fromHex b) (fromHex k) (Spec.Multipart.assemble bodies))).1,
+            st.mspec.filter (fun x => !(x.id == s.id)),
+            s!"completed {toHex (Spec.Multipart.etag md5 bodies)}")
+        else (st.spec, st.mspec, "err NoSuchBucket")
+    (match r with
+     | .ok (vid, etag) => some ({ st with upl := u, mem := m, spec := spec', mspec := mspec' }, Out.ok, s!"completed {toHex etag} vid={optNat vid}", sp)
+     | .err c => some ({ st with upl := u, mem := m, spec := spec', mspec := mspec' }, Out.err c, s!"err {c.name}", sp)
+     | .panic _ => some ({ st with upl := u, mem := m }, Out.ok, "panic", sp))
+  | ["mpabort", b, k, id] =>
+    let (u, r) := st.upl.abort (fromHex b) (fromHex k) (parseNat id)
+    let known := st.mspec.any (fun s => s.id == parseNat id && s.bucket == fromHex b && s.key == fromHex k)
+    (match r with
+     | .ok _ => some ({ st with upl := u, mspec := st.mspec.filter (fun x => !(x.id == parseNat id)) }, Out.ok, "ok", if known then "ok" else "err NoSuchUpload")
+     | .err c => some ({ st with upl := u }, Out.err c, s!"err {c.name}", if known then "ok" else "err NoSuchUpload")
+     | .panic _ => some (st, Out.ok, "panic", "-"))
+  | ["mpparts", b, k, id, marker, limit] =>
+    (match Front.ensureBucket st.cfg st.mem (fromHex b) with
+     | (m, .ok _) =>
+       let r := st.upl.listParts (fromHex b) (fromHex k) (parseNat id) (parseNat marker) (parseInt limit)
+       -- specification: the held parts with their true numbers, ascending
+       let sp := match st.mspec.find? (fun s => s.id == parseNat id && s.bucket == fromHex b && s.key == fromHex k) with
+         | none => "err NoSuchUpload"
+         | some s =>
+           let sorted := (s.latest.toArray.qsort (fun a c => a.1 < c.1)).toList.filter (fun q => q.1 ≥ parseNat marker)
+           let ps := sorted.map fun q => s!"{q.1}:{q.2.length}:{toHex (md5 q.2)}"
+           "specparts " ++ (if ps.isEmpty then "-" else ",".intercalate ps)
+       (match r with
+        | .ok l =>
+          let ps := l.parts.map fun q => s!"{q.number}:{q.size}:{toHex q.hash}"
+          let pl := if ps.isEmpty then "-" else ",".intercalate ps
+          let tr := if l.truncated then "1" else "0"
+          some ({ st with mem := m }, Out.ok, s!"parts trunc={tr} next={l.next} L={pl}", sp)
+        | .err c => some ({ st with mem := m }, Out.err c, s!"err {c.name}", sp)
+        | .panic _ => some ({ st with mem := m }, Out.ok, "panic", sp))
+     | (m, .err c) => some ({ st with mem := m }, Out.err c, s!"err {c.name}", "-")
+     | (m, .panic _) => some ({ st with mem := m }, Out.ok, "panic", "-"))
+  | ["mpuploads", b, hasP, pfx, hasD, d, km, im, limit] =>
+    (match Front.ensureBucket st.cfg st.mem (fromHex b) with
+     | (m, .ok _) =>
+       let pr := parsePrefix hasP pfx hasD d
+       let r := st.upl.listUploads (fromHex b) pr (fromHex km) (parseOptNat im) (parseInt limit)
+       -- specification: pending uploads of the bucket matching the prefix, by key then initiation
+       let pend := (st.mspec.filter (fun s => s.bucket == fromHex b)).toArray.qsort
+         (fun a c => Bytes.lt a.key c.key || (a.key == c.key && a.id < c.id))
+       let items := pend.toList.filterMap fun s =>
+         match pr.match_ s.key with
+         | some (false, _) => some s!"{toHex s.key}:{s.id}"
+         | _ => none
+       let sp := "specuploads " ++ (if items.isEmpty then "-" else ",".intercalate items)
+       (match r with
+        | .ok l =>
+          let us := l.uploads.map fun q => s!"{toHex q.key}:{q.id}"
+          let ul := if us.isEmpty then "-" else ",".intercalate us
+          let tr := if l.truncated then "1" else "0"
+          some ({ st with mem := m }, Out.ok, s!"uploads trunc={tr} nextkey={toHex l.nextKey} nextid={optNat l.nextId} U={ul} P={showKeys l.prefixes}", sp)
+        | .err c => some ({ st with mem := m }, Out.err c, s!"err {c.name}", sp)
+        | .panic _ => some ({ st with mem := m }, Out.ok, "panic", sp))
+     | (m, .err c) => some ({ st with mem := m }, Out.err c, s!"err {c.name}", "-")
+     | (m, .panic _) => some ({ st with mem := m }, Out.ok, "panic", "-"))
   | ["vmode", v] => some ({ st with vmode := v == "1" }, Out.ok, "ok", "-")
   | _ => none
 
